@@ -29,7 +29,8 @@ func (t *TransactionCancelTimer) Start() error {
 	if t.done != nil {
 		return fmt.Errorf("TransactionCancelTimer already started")
 	}
-	t.done = make(chan struct{})
+	done := make(chan struct{})
+	t.done = done
 
 	go func() {
 		timer := time.NewTimer(t.delay)
@@ -44,10 +45,9 @@ func (t *TransactionCancelTimer) Start() error {
 			if t.fnc != nil {
 				t.fnc()
 			}
-		case <-t.done:
+		case <-done:
 			// Stop the timer
 			log.Infof("TransactionCancelTimer stopped")
-			t.done = nil
 		}
 	}()
 
@@ -62,4 +62,6 @@ func (t *TransactionCancelTimer) Stop() {
 		return
 	}
 	close(t.done)
+	// reset under the mutex, a second Stop (e.g. confirm racing with the expiry) must not close the channel again
+	t.done = nil
 }
